@@ -51,6 +51,8 @@ type c13Case struct {
 	// Control: (close) after the data packets a header-only control packet (PROTACK) for the
 	// channel arrives - it goes straight into the package queue
 	Control bool `json:"control_packet_arrives"`
+	// CloseFails: (connclose) the transport's Close reports an error (it is closed all the same)
+	CloseFails bool `json:"transport_close_reports_error"`
 }
 
 // env is one connection with its peer.
@@ -641,6 +643,9 @@ func runConnClose(c c13Case) *vh.Failure {
 		e.cancel()
 		time.Sleep(time.Duration(c.DelayUs%300) * time.Microsecond)
 	}
+	if c.CloseFails {
+		e.pipe.FailClose(errors.New("transport: close notification could not be sent"))
+	}
 	var cerr error
 	bound := 5 * time.Second
 	if c.Peer == "never" {
@@ -684,6 +689,9 @@ func runConnClose(c c13Case) *vh.Failure {
 	}
 	if c.ParentCancelled {
 		vh.Label("connclose:parent-context-cancelled-first")
+	}
+	if c.CloseFails {
+		vh.Label("connclose:transport-close-reports-error")
 	}
 	if readerParked {
 		vh.Label("connclose:reader-parked")
@@ -766,6 +774,7 @@ func genCase(rt *rapid.T, kind string) c13Case {
 		c.ErrFull = rapid.IntRange(0, 2).Draw(rt, "errfull") == 0
 		c.Peer = rapid.SampledFrom([]string{"now", "now", "late"}).Draw(rt, "peer")
 		c.ParentCancelled = rapid.IntRange(0, 2).Draw(rt, "parentcancelled") == 0
+		c.CloseFails = rapid.IntRange(0, 3).Draw(rt, "closefails") == 0
 	}
 	return c
 }
